@@ -628,7 +628,28 @@ def translator_tie(ck):
     ck.cov["trusted_base"].append("translator harness/py2util.py (symbolic execution of afkak/_util.py: evaluation order, integers as Z, struct "
                                   "formats as Prim.pack_list / per-field Prim.unpack, slices with non-negative bounds, encode/decode as the model's "
                                   "ASCII/UTF-8 predicates, isinstance tests taken to hold, messages ignored, arithmetic normalised to linear forms)")
-    return {fn for fn in py2util.FUNCTIONS if r["status"].get(fn) != "intact"}
+    down = {fn for fn in py2util.FUNCTIONS if r["status"].get(fn) != "intact"}
+    # the consumer's pure arithmetic (growth handler, retry-delay update, reset sites): same scheme, harness/py2grow.py
+    try:
+        import grow_tie
+        import py2grow
+        g = grow_tie.check(vlib.REPO)
+        gi = sorted(p for p, st in g["status"].items() if st == "intact")
+        ck.cov["translator_tie"]["consumer_arithmetic"] = {
+            "state": "intact for %d of %d parts (growth handler, delay update, reset sites)" % (len(gi), len(g["status"])),
+            "source": os.path.join(vlib.REPO, "afkak/consumer.py"), "per_part": g["status"],
+            "scratch_dir": os.path.relpath(g["dir"], vlib.ROOT), "cached_result": g.get("cached", False)}
+        ck.cov["obligations"] += len(gi)
+        ck.cov["discharged"] += len(gi)
+        ck.cov["theorems"] += [{"name": "gen_%s_is_ast (per run, %s)" % (p, os.path.relpath(g["dir"], vlib.ROOT)),
+                                "axioms": [], "accepted": True} for p in gi]
+        ck.cov["trusted_base"].append("translator harness/py2grow.py (symbolic execution of the ConsumerFetchSizeTooSmall handler and of the retry-delay "
+                                      "update: logging and Failure construction ignored, attribute reads as variables, float constant read as the exact decimal)")
+        down |= {"consumer:" + p for p in py2grow.PARTS if g["status"].get(p) != "intact"}
+    except Exception as e:  # noqa
+        ck.cov["translator_tie"]["consumer_arithmetic"] = {"state": "unavailable: %r" % (e,)}
+        down |= {"consumer:growth", "consumer:delay", "consumer:resets"}
+    return down
 
 
 def describe(c):
@@ -667,9 +688,11 @@ def run(ck):
     # ============================================================ 0. shared codec models still match the code
     # (two-ties rule: where the translator tie for _util.py is not intact the correspondence carries those functions
     # alone and gets a four times larger sample)
-    if tie_down:
-        ck.hist("selftest_enlarged_because_translator_tie_is_down_for_%d_functions" % len(tie_down))
-    n, diffs, hist, _ = CL.selftest(ck, ck.seed, (1 if not thorough else 4) * (4 if tie_down else 1))
+    util_down = {f for f in tie_down if not f.startswith("consumer:")}
+    growth_down = "consumer:growth" in tie_down
+    if util_down:
+        ck.hist("selftest_enlarged_because_translator_tie_is_down_for_%d_functions" % len(util_down))
+    n, diffs, hist, _ = CL.selftest(ck, ck.seed, (1 if not thorough else 4) * (4 if util_down else 1))
     ck.cov["correspondence"]["codec_lib.selftest: _util / struct / crc32 / message-set encoder+decoder vs Model.Prim/Crc/MsgSet"] = {
         "cases": n, "differences": len(diffs)}
     ck.cov["evaluations"] += n
@@ -1068,7 +1091,9 @@ def run(ck):
                        "replies_hex": [x.hex() for x in replies], "implementation_trace": tr}, op="consumer")
         return items
 
-    for i in range(90 * scale):
+    if growth_down:      # two-ties rule: the growth handler is carried by the correspondence alone
+        ck.hist("consumer_cases_enlarged_because_the_growth_tie_is_down")
+    for i in range(90 * scale * (3 if growth_down else 1)):
         buf = rnd.choice(bufs)
         maxbuf = None if rnd.random() < 0.3 else rnd.choice([buf, buf + 1, buf * 2 - 1, buf * 2, buf * 16 - 1, buf * 16, buf * 16 + 1, buf * 100, buf * 4096])
         maxbuf = None if maxbuf is None else max(maxbuf, buf)
